@@ -13,12 +13,12 @@ LEVEL_TEXT = {
     "C01": "Lean 4 theorems: the model of bp.py + generated accessors (PyRt.encode) returns exactly Spec.encode for every type tree and every value of its shape, with length, bit placement, zero padding, N = leaf widths + 16 per extensible node, ascending field order; model tied to /repo by regenerated helper definitions (bridge lemmas re-proved each run) and by executing the real generated Python against py.encode/spec.encode.",
     "C02": "Lean 4 theorems for every type tree and in-range value: PyRt.decode(Spec.encode v) into a fresh message = v and re-encoding reproduces the bytes, signed fields sign-extended (C02_roundtrip_partial, under enumZero: every enum's first declared member is 0). The full statement is false of the unchanged code outside that hypothesis: KF_py_enum_default_witness proves the negation on a concrete input, which the check replays on the real generated Python (KNOWN-FINDING). Two further defects were repaired by fix: commits and the model follows the repaired code.",
     "C03": "Lean 4 theorems for every well-formed type tree and in-range value: the model of lib/c/bitproto.c + generated descriptors (CRt.encode / CRt.decode, little-endian host) writes exactly Spec.encode into a zeroed buffer and decodes it into a zeroed struct to exactly the values (sign handling for widths other than 8/16/32/64, batch path = element loop, every path of the bit copier), hence C <-> Python interoperate. Tied by executing the real C (gcc, ctypes, generated shim) and the generated Python against the model and the specification; storage-size rule tied by the translator.",
-    "C04": "Lean 4 theorems for every traditional type tree: the compile-time copy plan (OpMode.planLeaf) covers each leaf's bits exactly once, and executing the emitted items in each dialect (C little-endian pointer items, C big-endian value items, Go items) encodes to Spec.encode and decodes back — the same bytes as standard mode. Tie: every generated -O program of a run is parsed back into items and compared with the plan; generated C -O is executed (LE, and BE emulation); Go -O statements cannot be executed here (no toolchain) and are tied structurally only.",
+    "C04": "Lean 4 theorems for every traditional type tree: the compile-time copy plan (OpMode.planLeaf) covers each leaf's bits exactly once, and executing the emitted items in each dialect (C little-endian pointer items, C big-endian value items, Go items) encodes to Spec.encode and decodes back — the same bytes as standard mode. Tie: every generated -O program of a run is parsed back into items and compared with the plan; generated C -O is executed (LE, and BE emulation); Go cannot be compiled here (no toolchain): generated Go -O statements are tied structurally and additionally executed by an interpreter of their statement subset (tools/gointerp.py) against the specification.",
     "C05": "Lean 4 theorems: for every pair of schemas related by Evo (append fields to extensible messages, grow extensible arrays, any depth, any chain — reflexive-transitive closure proved), every in-range value of the newer schema decodes under the older one (Spec, Python model, C model) to the projection of the value, and the cursor lands exactly after the sender's data. The array part was false of the unchanged runtimes (skip formula); repaired by a fix: commit, the old formula's failure is kept as a proved witness.",
     "C06": "Lean 4 theorems: the big-endian build of the C runtime model (staging through BpHostToLittleEndian / value-shift items, byte-reversed cells) produces and consumes exactly the same wire bytes as the little-endian build for every well-formed type and in-range value; the bit copier is build-independent; the -O endian selection emits the right items. Tie: the real runtime compiled with -DBP_BIG_ENDIAN on byte-reversed storage (the property's own emulation) executed against the model. A real big-endian CPU is outside the model.",
     "C07": "Lean 4 theorems: the size constant is ceil(N/8); encoding an over-range value equals encoding its reduction modulo 2^width (no neighbouring bit changes) in the specification, the Python model and the C model; with a buffer of exactly ceil(N/8) bytes and cells of exactly their storage size no modelled access leaves its object (the models raise on any out-of-range index). Tie: real Python and C executed with over-range values, guard zones around buffers and structs, and the -O masks parsed from generated text.",
     "C08": "Lean 4 theorems about an executable reference of the documented rules (Front.checkProgram): acceptance implies well-formedness of every elaborated message (the hypothesis of C01-C07), per-rule boundary statements, numeric limits tied to the validators' source by the translator. The iff against the real compiler is established by correspondence: generated valid programs and single-violation mutants (about 28 kinds, boundary values on both sides) must get the same verdict, rule family, file and line from bitproto.parser.parse, the CLI and the reference. Since the text-level model exists (Lex.lex: PLY's rule order, boundaries, lazy errors; Parse.parseText: a predictive parser from grammars.py) the same comparison runs on arbitrary TEXT (repo files and generated programs under character / token mutations, random token sequences, truncations): acceptance always, rule and line unless one side reports a syntactic stop. PLY's automaton itself is not modelled, hence partial.",
-    "C09": "Partial. Lean 4 theorems for the places where totality is not by construction: the lexer's index-driven escape loop never raises IndexError nor runs out of steps on anything the token regular expression matches; the expression parser, tokenizer and import recursion never exhaust their fuel (answers independent of fuel beyond 2|tokens|+2, |text|, |files|+1); evaluation ends in a value or one of four parser-error kinds; the lexer model of the whole token language terminates on every text and numbers lines correctly. Fuel adequacy of the grammar model is not proved; PLY's LALR automaton and the renderers as a whole are not modelled: their totality is explored (five input streams incl. stress inputs, worker pool under an interval timer, real CLI), not proved.",
+    "C09": "Partial. Lean 4 theorems for the places where totality is not by construction: the lexer's index-driven escape loop never raises IndexError nor runs out of steps on anything the token regular expression matches; the expression parser, tokenizer and import recursion never exhaust their fuel (answers independent of fuel beyond 2|tokens|+2, |text|, |files|+1); evaluation ends in a value or one of four parser-error kinds; the text-level models (lexer of the whole token language, grammar) terminate on every text — no fuel bound is ever hit — and number lines correctly; PLY's LALR automaton and the renderers as a whole are not modelled: their totality is explored (five input streams incl. stress inputs, worker pool under an interval timer, real CLI), not proved.",
     "C10": "Partial. What a theorem can carry is the declaration discipline of the output, not gcc's verdict: Lean 4 theorems that the emission order (children first, siblings in declaration order) emits every definition exactly once, nested definitions before their parent and earlier siblings before later ones — with C08/C11 this is declared-before-use. The toolchains (gcc, g++ with sizeof/offsetof asserts, Python import + instantiate, static Go discipline; no Go toolchain here) run on every generated program as correspondence. Seven known findings of the unchanged tree are listed; one defect repaired.",
     "C11": "Lean 4 theorems about the reference resolver (Front.resolve / lookupPath): a simple name resolves to the innermost enclosing scope that declares it, searching outward, only among definitions that closed earlier; dotted paths descend through messages and imports; elaboration uses exactly the resolved definition. Tie: for every generated program with shadowing, dotted paths and imports the elaborated type of every message must agree three ways (real AST, Lean reference, the generator's own resolver).",
     "C12": "Lean 4 theorems: Spec.encode depends only on the normalised type — reordering fields, introducing or eliminating aliases, order-preserving renumbering and their compositions leave the bytes unchanged for every value; field numbers are not on the wire. Tie: rewrite pairs of real programs (reorder, alias in/out, rename, unnest, renumber, const folding incl. negative division) compiled by the real compiler must produce identical bytes in Python and C.",
@@ -28,7 +28,7 @@ LEVEL_TEXT = {
     "C16": "Lean 4 theorems about the JSON value model (Spec.json / Spec.ofJson): one key per field and nothing else, in ascending field-number order, every leaf stated with its value, and reading the JSON back yields the value (faithful) for every type tree. Tie: Spec.json vs the generated Python to_dict(), and the real Json<Msg>() C output / Python to_json() parsed by a strict JSON parser and compared with the values. json.dumps, asdict and vsprintf as libraries are outside the model. One defect repaired.",
     "C17": "Lean 4 theorems about the model of the CLI decision logic (Cli.main) and the -F filter: -O with an extensible marker, -O for a language without optimization mode and -F without -O are refused with no output; -F emits exactly the listed messages' functions, each identical to the unfiltered one, a sublist of the unfiltered output. Tie: Cli.main vs the real bitproto._main.main on an option grid, Cli.emitted vs real c -O -F output, and a CLI-level differential harness (exit status, stderr, files, function texts).",
     "C18": "Partial. A Lean function is deterministic by construction, so the theorems name what could make the compiler depend on history: conditional memoisation is transparent over any query history and any prior table satisfying the invariant, and generated files do not depend on the lint flag. Hash randomisation, id() reuse and process state are runtime effects no model can exhibit; they are executed by the correspondence: sha256 of all outputs across hash seeds, working directories, path spellings, -q, and one-process schedules (interleaved, repeated, kept trees, failing compiles in between).",
-    "C19": "Lean 4 theorems about the Go runtime helpers regenerated from lib/go/bitproto.go by a Go-subset translator: getMask, getNbitsToCopy, smartShift, min, Bool2byte/Byte2bool equal the specification helpers (hence the Python ones) for all arguments; integer storage is the smallest of 8/16/32/64; the generated sign-extension pair is correct exactly when needed. Go cannot be executed here: the generated Go is parsed structurally (field order, types, processors, constants) and compared with the Python output's description of the same messages.",
+    "C19": "Lean 4 theorems about the Go runtime helpers regenerated from lib/go/bitproto.go by a Go-subset translator: getMask, getNbitsToCopy, smartShift, min, Bool2byte/Byte2bool equal the specification helpers (hence the Python ones) for all arguments; integer storage is the smallest of 8/16/32/64; the generated sign-extension pair is correct exactly when needed. Go cannot be compiled here: the generated Go is parsed structurally (field order, types, processors, constants) and compared with the Python output's description of the same messages, and the runtime helpers are evaluated with Go's precedence and byte wrap-around on their whole argument grid against the Python helpers.",
     "C20": "Lean 4 theorems about the lint rules as the linter states them (names are fixed points of pascal_case / satisfy isupper; an enum needs a 0 member): conforming names produce no warning, clearly violating ones do; lint never changes acceptance or output; check-only mode exits non-zero exactly on an error or a warning. Tie: the real rule classes vs the model on odd identifiers, Cli.main vs _main.main, and a CLI harness comparing warnings, exit status and the line / column of every definition and reference with positions computed from the source text. One known finding (column base on the first line).",
 }
 NOTE = {
